@@ -69,6 +69,10 @@ def base_grids():
     B.append(N.mkgrid('3.0', [], [('a', []), ('b', []), ('c', [])],
                       [(N.NULL, ('list', (ONE, N.NULL)), N.mkdict([('k', MK), ('v', ('str', 'x'))])),
                        (N.NA, N.NULL, ('xstr', 'Foo', 'p')), (('list', ()), N.mkdict([]), N.NULL)]))
+    # 9: text whose latin-1 / cp1252 bytes happen to be well-formed UTF-8 (what mis-decoded UTF-8 looks like): only the caller's charset
+    # says which reading is meant
+    B.append(N.mkgrid('2.0', [('note', ('str', u'\u00c3\u00a9'))], [('t', []), ('q', [])],
+                      [(('str', u'caf\u00c3\u00a9 \u00c2\u00b0'), N.num(21.5, u'\u00c2\u00b0C')), (('uri', u'http://x/\u00c3\u00bc'), N.NULL)]))
     return B
 
 
@@ -76,13 +80,18 @@ BASE = base_grids()
 SMALL = N.mkgrid('2.0', [], [('p', []), ('q', [])], [(('str', 'left'), N.num(2.0))])
 
 
+SINGLE_BYTE_CHARSETS = ['latin-1', 'cp1252']        # the quick tier keeps the first one (set in run() before the workers are forked)
+
+
 def enc_forms(text):
-    forms = [('str', None), ('bytes', 'utf-8'), ('bytes', 'utf-16')]
-    try:
-        text.encode('latin-1')
-        forms.append(('bytes', 'latin-1'))
-    except UnicodeError:
-        pass
+    # BOM-less UTF-16 as well: nothing in the bytes says what they are, only the caller's charset does
+    forms = [('str', None), ('bytes', 'utf-8'), ('bytes', 'utf-16'), ('bytes', 'utf-16-le')]
+    for cs in SINGLE_BYTE_CHARSETS:
+        try:
+            text.encode(cs)
+            forms.append(('bytes', cs))
+        except UnicodeError:
+            pass
     return forms
 
 
@@ -125,8 +134,29 @@ def _run_case(ch, st, bi):
     case = {'base': bi, 'ov': dict(ch.ov)}
     classes = sorted(set(_label_class(l) for l in devs))
     sig = {'spellings': '|'.join(classes) or '-'}
+    # the entry point is a choice too: the same text as a nested-grid literal through the scalar API (which does not pass through
+    # parse()'s own pre-processing of documents)
+    entry = ch.choose('entry', ['parse', 'scalar'])
+    devs = sorted(ch.used)
+    classes = sorted(set(_label_class(l) for l in devs))
+    sig = {'spellings': '|'.join(classes) or '-'}
+    if entry == 'scalar':
+        # (a nested-grid literal is a 3.0 construct holding a 3.0 grid: a 2.0 grid inside a 3.0 value is mixed-version nesting, C10's subject)
+        if g[1] != '3.0' or ngrids != 1 or not single or not (text.endswith('\n') and not text.endswith('\n\n') and not text.endswith('\n\r\n')):
+            st.skip('scalar entry point: only one grid that ends with its line end fits a nested-grid literal')
+            st.case((bi, tuple(sorted(ch.ov.items()))), nontrivial=False, outcome=('skip',))
+            return
+        lit = '<<' + text + '>>'
+        src = lit if form[0] == 'str' else lit.encode(form[1])
     try:
-        got = hs.parse(src, mode=hs.MODE_ZINC, single=single, **kw)
+        if entry == 'scalar':
+            got = hs.parse_scalar(src, mode=hs.MODE_ZINC, version='3.0', **kw)
+            if not isinstance(got, hs.Grid):
+                st.fail('document-decoded-to-other-grid', dict(sig, where='nested-grid literal', kinds='grid->' + type(got).__name__), case,
+                        {'document': lit, 'form': list(form)})
+                return
+        else:
+            got = hs.parse(src, mode=hs.MODE_ZINC, single=single, **kw)
     except Exception as e:  # noqa
         st.case((bi, tuple(sorted(ch.ov.items()))), nontrivial=bool(devs), outcome=('raise', type(e).__name__, tuple(classes)),
                 sample=None)
@@ -220,6 +250,8 @@ def run(ctx):
     from mc.explore import pmap, chunks
     selftest.quick_selftest()
     st = Stats()
+    if ctx.quick:
+        del SINGLE_BYTE_CHARSETS[1:]
     fr = fractions(ctx.quick)
     for part in pmap(fraction_task, [(c,) for c in chunks(fr, ctx.jobs * 2)], ctx.jobs):
         st.merge(part)
@@ -232,7 +264,7 @@ def run(ctx):
     return {
         'stats': st, 'exhaustive': True,
         'rule': 'every document the independent grammar-directed writer can produce for each base grid with at most max_deviations '
-                'non-canonical choices (token spellings, line ends, final newline, number of grids, input encoding, single flag); distinct = '
+                'non-canonical choices (token spellings, line ends, final newline, number of grids, input encoding incl. BOM-less UTF-16 and single-byte charsets, single flag, entry point: parse() or the same text as a nested-grid literal through parse_scalar); distinct = '
                 'distinct override set; non-trivial = at least one non-canonical choice',
         'coverage': {'bounds': {'base_grids': len(BASE), 'subspaces': bounds}},
         'assumptions': ['ref/refzinc.py writer emits only spellings that DESIGN.md Appendix A marks MUST-accept; it was self-tested against the '
